@@ -688,6 +688,7 @@ func runProperty() int {
 			// The harness environment is entirely a symbolic-only model (e.g. the crash model of the
 			// file system): there is nothing to run natively. Witnesses and counterexamples are
 			// re-executed concretely by the engine over the same real SSA code plus the model.
+			eng.AuxZero = true
 			for _, w := range res.Witnesses {
 				oc, _, reached, _ := eng.RunConcrete(fn, cfg, w.Vector, w.Sched...)
 				totalValidated++
@@ -714,6 +715,7 @@ func runProperty() int {
 				violLines = append(violLines, fmt.Sprintf("VIOLATION property=%s replay=%s", *prop, rp))
 				fmt.Printf("  violation detail: harness=%s kind=%s msg=%q site=%s inputs=%s (replayed by concrete re-execution over the environment model)\n", h.Name, v.Kind, v.Msg, v.Site, fmtInputs(v))
 			}
+			eng.AuxZero = false
 			continue
 		}
 		// ---- translator validation: witnesses and random concrete vectors, natively vs engine ----
